@@ -1199,6 +1199,7 @@ func buildMessageFieldSchema(pkg *Package, context fieldContext, src protoreflec
 		return &OneofField{
 			fieldContext: context,
 			Ref:          ref,
+			ListRules:    ext.list.GetOneof(),
 		}, nil
 	}
 
